@@ -25,6 +25,8 @@ THEOREMS = [
     "RedunModel.C16.partial_top_set_unorderable",
     "RedunModel.C16.pySorted_typeError_perm",
     "RedunModel.C16.nonset_hash_eq_iff",
+    "RedunModel.C16.recordValue_eq_getHash",
+    "RedunModel.C16.recorded_top_set_str",
     "RedunModel.C16.refuted_nested_list",
     "RedunModel.C16.refuted_dict_value",
     "RedunModel.C16.refuted_frozenset",
@@ -68,8 +70,11 @@ RULE = ("value specifications generated from one PRNG (scalars, nested list/tupl
         "top level, nested, inside frozensets and dataclass fields; colliding ints; unicode strs; mixed-kind sets), each hashed by the "
         "real TypeRegistry.get_hash in fresh interpreters started with different PYTHONHASHSEED values and, per interpreter, under "
         "several permuted insertion orders; the worker prints the layout it observed; the Lean model maps every layout to a hash "
-        "pre-image. Correspondence: pre-image <-> hash must be a bijection over ALL observed layouts (so the model predicts exactly "
-        "which values are order sensitive). Oracle: all runs of one value must give one hash. distinct = distinct specifications; "
+        "pre-image. The worker obtains the hash five ways: TypeRegistry.get_hash(value), value_interface.get_hash(data=serialize()), a "
+        "real RedunBackendDb.record_value(value), and (witnesses, corpus, first generated values) Argument.value_hash and "
+        "CallNode.value_hash recorded by a real Scheduler for the call ident(value). Correspondence: pre-image <-> hash must be a "
+        "bijection over ALL observed layouts and the first three ways (so the model predicts exactly "
+        "which values are order sensitive). Oracle: all runs of one value must give one hash, for each of the five ways. distinct = distinct specifications; "
         "non-trivial = contains a set or frozenset")
 LEVEL_TEXT = (
     "The full-strength statement (OrderIndependent: values equal up to the order of set/frozenset elements - Sim, proved to be an "
@@ -87,7 +92,9 @@ LEVEL_TEXT = (
     "digests and hashes the same under every layout provided every element has a single layout and distinct elements have "
     "distinct digests; refuted_unorderable_with_frozenset: {frozenset({a,b}), 1} is still order sensitive, for every digest "
     "function), nonset_hash_eq_iff (anything that is not a top-level set is hashed as laid out: equal hash iff "
-    "equal layout - this characterises exactly the order-sensitive values). Tie: real hashes from fresh interpreters with "
+    "equal layout - this characterises exactly the order-sensitive values), recordValue_eq_getHash (the hash record_value stores, "
+    "get_hash(data=serialize()) - Set.get_hash ignores `data` - is the hash get_hash computes, so all of the above also speaks "
+    "about the recorded Argument/CallNode/Value hashes; recorded_top_set_str). Tie: real hashes from fresh interpreters with "
     "different PYTHONHASHSEED and permuted insertion orders vs. model pre-images, bijection over all observed layouts; the "
     "witnesses are replayed on the real code on every run.")
 LEVEL_NOTE = (
@@ -273,7 +280,7 @@ WITNESSES = [
     ("refuted_insertion_order_ints", ["L", [S(i_(8), i_(0), i_(16), i_(24))]], "C16-nested-set-layout-hashed"),
 ]
 CORPUS = [
-    S(*LETTERS), S(i_(8), i_(0), i_(16)), S(), ["FS", []], ["L", [S()]], S(s_("a")), ["L", [S(s_("a"))]],
+    S(*LETTERS), S(i_(8), i_(0), i_(16)), S(i_(0), i_(8), i_(16), i_(24), i_(32)), S(), ["FS", []], ["L", [S()]], S(s_("a")), ["L", [S(s_("a"))]],
     S(["b", "61"], ["b", "62"], ["b", "63"]), S(["T"], i_(2), i_(0)), S(["N"]),
     S(i_(1), s_("a")), S(i_(1), s_("a"), ["N"], ["b", "61"], ["U", []]),  # sorted() raises: ordered by element hash, stable
     S(["O", "K1", [i_(1)]], ["O", "K1", [i_(2)]], ["O", "K2", [i_(1), s_("x")]]),
@@ -288,13 +295,13 @@ CORPUS = [
 
 # ------------------------------------------------------------------ fresh interpreters
 def run_workers(docs, seeds):
-    """docs: list of (id, spec).  returns {seed: {id: (layout, hash)}}"""
+    """docs: list of (id, spec, sched).  returns {seed: {id: (layout, get_hash, get_hash(data=), record_value, arg, result)}}"""
     tmp = tempfile.mkdtemp(prefix="verif-c16-")
     try:
         inp = os.path.join(tmp, "docs.jsonl")
         with open(inp, "w") as f:
-            for did, sp in docs:
-                f.write(json.dumps({"id": did, "spec": sp}) + "\n")
+            for did, sp, sched in docs:
+                f.write(json.dumps({"id": did, "spec": sp, "sched": bool(sched)}) + "\n")
         procs = []
         for sd in seeds:
             env = dict(os.environ)
@@ -316,8 +323,10 @@ def run_workers(docs, seeds):
             table = {}
             for line in out.split("\n"):
                 if line:
-                    did, layout, h = line.split("\t")
-                    table[did] = (layout, h)
+                    cols = line.split("\t")
+                    if len(cols) != 7:
+                        raise core.Infra("C16 worker: malformed reply " + line[:200])
+                    table[cols[0]] = tuple(cols[1:])
             if len(table) != len(docs):
                 raise core.Infra("C16 worker (PYTHONHASHSEED=%s): %d replies for %d docs" % (sd, len(table), len(docs)))
             res[sd] = table
@@ -326,72 +335,104 @@ def run_workers(docs, seeds):
         shutil.rmtree(tmp, ignore_errors=True)
 
 
-def check_specs(ctx, specs, seeds, nvar, stream_of=None):
-    """specs: list of specifications.  Every spec x (base order, reversed, nvar-2 shuffles) x every seed is hashed for real."""
+OBSERVABLES = [     # (name, column in the worker row, model request, enters the layout<->hash bijection)
+    ("TypeRegistry.get_hash(value)", 1, "hash", True),
+    ("value_interface.get_hash(data=serialize())", 2, "record", True),
+    ("RedunBackendDb.record_value(value)", 3, "record", True),
+    # a real call ident(value) on a Scheduler with an in-memory backend; the scheduler rebuilds nested containers
+    # (map_nested_value), so the recorded layout need not be the printed one: these two only enter the oracle
+    ("Argument.value_hash of a task call", 4, "record", False),
+    ("CallNode.value_hash (result) of a task call", 5, "record", False),
+]
+
+
+def check_specs(ctx, specs, seeds, nvar, stream_of=None, nsched=0):
+    """specs: list of specifications.  Every spec x (base order, reversed, nvar-2 shuffles) x every seed is hashed for real;
+    the first `nsched` specs additionally go through a real task call."""
     rng = ctx.rng
     docs = []
     for i, sp in enumerate(specs):
-        docs.append(("%d.0" % i, sp))
+        docs.append(("%d.0" % i, sp, i < nsched))
         if nvar > 1:
-            docs.append(("%d.1" % i, permuted(sp, rng, "reverse")))
+            docs.append(("%d.1" % i, permuted(sp, rng, "reverse"), i < nsched))
         for j in range(2, nvar):
-            docs.append(("%d.%d" % (i, j), permuted(sp, rng, "shuffle")))
+            docs.append(("%d.%d" % (i, j), permuted(sp, rng, "shuffle"), i < nsched))
     res = run_workers(docs, seeds)
     # ---- model on every distinct layout
-    layouts = sorted({lay for t in res.values() for lay, _ in t.values()})
-    replies = dict(zip(layouts, ctx.model("C16", ["hash " + lay for lay in layouts])))
+    layouts = sorted({row[0] for t in res.values() for row in t.values()})
+    if "!layout-changed" in layouts:
+        raise core.Infra("a value changed its layout while being hashed")
+    replies = {"hash": dict(zip(layouts, ctx.model("C16", ["hash " + lay for lay in layouts]))),
+               "record": dict(zip(layouts, ctx.model("C16", ["record " + lay for lay in layouts])))}
     pre2hash, hash2pre = {}, {}
     nunspec = 0
     for sd in seeds:
-        for did, (lay, h) in sorted(res[sd].items()):
-            m = replies[lay]
-            if m in ("bad-value", "bad-op"):
-                raise core.Infra("model driver rejected layout " + lay[:200])
-            if m == "unspecified":
-                nunspec += 1
-                continue
-            if m.startswith("!") or h.startswith("!"):
-                if m != h:
-                    ctx.mismatch("get_hash error behaviour differs from model", case=lay, model=m, impl=h)
-                continue
-            a = pre2hash.setdefault(m, (h, lay))
-            if a[0] != h:
-                ctx.mismatch("one model pre-image, two real hashes (pickle depends on something the layout does not capture)",
-                             case={"layout_a": a[1], "layout_b": lay, "seed": sd}, model=m[:300], impl=[a[0], h])
-            b = hash2pre.setdefault(h, (m, lay))
-            if b[0] != m:
-                ctx.mismatch("two model pre-images, one real hash (model distinguishes layouts that pickle does not)",
-                             case={"layout_a": b[1], "layout_b": lay, "seed": sd}, model=[b[0][:200], m[:200]], impl=h)
+        for did, row in sorted(res[sd].items()):
+            lay = row[0]
+            for oname, col, req, inbij in OBSERVABLES:
+                if not inbij:
+                    continue
+                h = row[col]
+                m = replies[req][lay]
+                if m in ("bad-value", "bad-op"):
+                    raise core.Infra("model driver rejected layout " + lay[:200])
+                if m == "unspecified":
+                    nunspec += 1
+                    continue
+                if m.startswith("!") or h.startswith("!"):
+                    if m != h:
+                        ctx.mismatch(oname + ": error behaviour differs from model", case=lay, model=m, impl=h)
+                    continue
+                a = pre2hash.setdefault(m, (h, lay, oname))
+                if a[0] != h:
+                    ctx.mismatch("one model pre-image, two real hashes (%s vs %s)" % (a[2], oname),
+                                 case={"layout_a": a[1], "layout_b": lay, "seed": sd}, model=m[:300], impl=[a[0], h])
+                b = hash2pre.setdefault(h, (m, lay, oname))
+                if b[0] != m:
+                    ctx.mismatch("two model pre-images, one real hash (%s vs %s)" % (b[2], oname),
+                                 case={"layout_a": b[1], "layout_b": lay, "seed": sd}, model=[b[0][:200], m[:200]], impl=h)
     ctx.count("model", "unspecified(top-level set of partially ordered elements)", nunspec)
-    # ---- oracle: one value, one hash
+    # ---- oracle: one value, one hash - for every way the hash of an argument / result is obtained
     verdicts = []
     for i, sp in enumerate(specs):
         runs = [(sd, did, res[sd][did]) for sd in seeds for did in ("%d.%d" % (i, j) for j in range(nvar)) if did in res[sd]]
-        hashes = sorted({h for _, _, (_, h) in runs})
-        nlay = len({lay for _, _, (lay, _) in runs})
+        nlay = len({row[0] for _, _, row in runs})
         ft = features(sp)
         text = json.dumps(sp, ensure_ascii=True)
-        sensitive = len(hashes) > 1
         stream = stream_of(i) if stream_of else "generated"
-        ctx.case(key=text if ft["sets"] else None,
-                 sample={"spec": text[:160], "layouts": nlay, "hashes": hashes[:3], "runs": len(runs)},
-                 stream=stream, top=ft["top"], sets=min(ft["sets"], 4), order_sensitive=sensitive,
-                 outcome="raises" if all(h.startswith("!") for h in hashes) else ("mixed" if any(h.startswith("!") for h in hashes) else "hashed"))
-        if sensitive:
+        sens_any = False
+        for oname, col, req, inbij in OBSERVABLES:
+            hashes = sorted({row[col] for _, _, row in runs})
+            if hashes == ["-"]:
+                continue
+            sensitive = len(hashes) > 1
+            if col == 1:
+                ctx.case(key=text if ft["sets"] else None,
+                         sample={"spec": text[:160], "layouts": nlay, "hashes": hashes[:3], "runs": len(runs)},
+                         stream=stream, top=ft["top"], sets=min(ft["sets"], 4), order_sensitive=sensitive,
+                         outcome="raises" if all(h.startswith("!") for h in hashes) else
+                         ("mixed" if any(h.startswith("!") for h in hashes) else "hashed"))
+            else:
+                ctx.count("observable", oname)
+            if col == 1:
+                sens_any = sensitive
+            if not sensitive:
+                continue
             a = runs[0]
-            b = next(r for r in runs if r[2][1] != a[2][1])
-            pres = {replies[lay] for _, _, (lay, _) in runs}
+            b = next(r for r in runs if r[2][col] != a[2][col])
+            pres = {replies[req][row[0]] for _, _, row in runs}
             sig = signature(ft)
             if len(pres) == 1 and "unspecified" not in pres:
                 # the model (= the code as it was when the finding was recorded) gives ONE pre-image for all these runs:
                 # this instability is not the recorded one
                 sig = "C16-unstable-where-model-is-stable:" + ("top-level-set" if ft["top"] == "S" else
                                                                ("set-free" if not ft["sets"] else "nested-set"))
-            ctx.violation(sig, "value hash differs between runs of the same value (PYTHONHASHSEED=%s vs %s)" % (a[0], b[0]),
-                          case={"spec": sp, "run_a": {"seed": a[0], "layout": a[2][0][:300], "hash": a[2][1]},
-                                "run_b": {"seed": b[0], "layout": b[2][0][:300], "hash": b[2][1]}},
+            ctx.violation(sig, "%s differs between runs of the same value (PYTHONHASHSEED=%s vs %s)" % (oname, a[0], b[0]),
+                          case={"spec": sp, "observable": oname,
+                                "run_a": {"seed": a[0], "layout": a[2][0][:300], "hash": a[2][col]},
+                                "run_b": {"seed": b[0], "layout": b[2][0][:300], "hash": b[2][col]}},
                           expected="one hash in all %d runs" % len(runs), actual=hashes[:6], kind="input")
-        verdicts.append(sensitive)
+        verdicts.append(sens_any)
     return verdicts
 
 
@@ -407,7 +448,8 @@ def run(ctx):
     for _ in range(ctx.n(700, 9000)):
         specs.append(g.value(ctx.rng.choice([1, 2, 2, 3, 4])))
     verdicts = check_specs(ctx, specs, seeds_for(ctx), 3 if ctx.tier == "quick" else 4,
-                           stream_of=lambda i: "witness" if i < len(WITNESSES) else ("corpus" if i < ncorp else "generated"))
+                           stream_of=lambda i: "witness" if i < len(WITNESSES) else ("corpus" if i < ncorp else "generated"),
+                           nsched=ncorp + ctx.n(25, 150))
     # the `_refuted` witnesses must still fail on the implementation (else the model is stale)
     for (name, sp, sig), sens in zip(WITNESSES, verdicts):
         if not sens:
@@ -419,6 +461,6 @@ def replay(ctx, case):
     c = case.get("case")
     if isinstance(c, dict) and "spec" in c:
         print("replaying specification:", json.dumps(c["spec"])[:300])
-        check_specs(ctx, [c["spec"]], seeds_for(ctx), 4)
+        check_specs(ctx, [c["spec"]], seeds_for(ctx), 4, nsched=1)
     else:
         run(ctx)
